@@ -205,7 +205,8 @@ def execute(item):
     pmin, primary_min, klass = _minimise(item, primary)
     detail = next(d for k, d in res["problems"] if k == primary)
     out["status"] = "viol"
-    out["viols"] = [{"key": f"C05|{primary_min}|{rid}|{klass}",
+    comp = sp.component(_rule_desc(item), klass) if sp.component is not None else rid
+    out["viols"] = [{"key": f"C05|{primary_min}|{comp}|{klass}",
                      "detail": {"params": item["p"], "minimal_params": pmin, "all_kinds": sorted({k for k, _ in res["problems"]}),
                                 "problem": detail, "near_miss": near}}]
     out["show"] = show
